@@ -347,6 +347,7 @@ class Program:
         d = os.path.join(snap, sub) if sub else snap
         self.fns = {}
         self.adts = {}
+        self.ext_adts = {}
         self.impls = []
         self.statics = []
         self.traits = {}
@@ -374,6 +375,8 @@ class Program:
                     elif t == "adt":
                         o["crate"] = crate
                         self.adts[o["name"]] = o
+                    elif t == "adt_ext":
+                        self.ext_adts[o["name"]] = o
                     elif t == "impl":
                         o["crate"] = crate
                         self.impls.append(o)
@@ -472,6 +475,8 @@ def load(want_nc=False):
         if late:
             raise FactsError("coroutine bodies without pre-transform MIR (driver hook did not run): %s" % late[:5])
         _prog_cache[snap] = p
+    from . import prov
+    prov.PROGRAM = _prog_cache[snap]
     return _prog_cache[snap]
 
 
